@@ -279,6 +279,78 @@ lemma dilG {K0 G0 G1 f : F} (hK0 : 0 < K0) (hG0 : 0 < G0) (hG1 : 0 < G1) :
     have d' : G1 + G0 * (9 * K0 + 8 * G0) / (6 * (K0 + 2 * G0)) ≠ 0 := by positivity
     rw [div_eq_div_iff d' d]; field_simp; ring
   rw [e1, e2, mul_div_assoc', div_div_eq_mul_div]
+/-- the code's `young/3/(1-2ν)`, `young/2/(1+ν)` on (E, ν) = (youngOf K G, nuOf K G) -/
+lemma kC_of {K G : F} (hK : 0 < K) (hG : 0 < G) :
+    youngOf K G / (3 : F) / ((1 : F) - (2 : F) * nuOf K G) = K := by
+  rw [← rtE hK hG, ← rtNu hK hG]; exact rtK1 hK hG
+lemma gC_of {K G : F} (hK : 0 < K) (hG : 0 < G) :
+    youngOf K G / (2 : F) / ((1 : F) + nuOf K G) = G := by
+  rw [← rtE hK hG, ← rtNu hK hG]; exact rtG1 hK hG
+lemma one_add_nuOf {K G : F} (hK : 0 < K) (hG : 0 < G) : (1 : F) + nuOf K G = 9 * K / (2 * (3 * K + G)) := by
+  unfold nuOf; field_simp; ring
+lemma one_sub_nuOf {K G : F} (hK : 0 < K) (hG : 0 < G) : (1 : F) - nuOf K G = (3 * K + 4 * G) / (2 * (3 * K + G)) := by
+  unfold nuOf; field_simp; ring
+lemma one_sub_two_nuOf {K G : F} (hK : 0 < K) (hG : 0 < G) : (1 : F) - (2 : F) * nuOf K G = 3 * G / (3 * K + G) := by
+  unfold nuOf; field_simp; ring
+/-- the Eshelby coefficients of a sphere as the code writes them (localisation tensor) -/
+lemma kaS9 {K G : F} (hK : 0 < K) (hG : 0 < G) :
+    (9 : F) * (((1 : F) + nuOf K G) / (9 : F) / ((1 : F) - nuOf K G)) = 9 * K / (3 * K + 4 * G) := by
+  rw [one_add_nuOf hK hG, one_sub_nuOf hK hG]; field_simp
+lemma muS4 {K G : F} (hK : 0 < K) (hG : 0 < G) :
+    (4 : F) * ((2 : F) * ((4 : F) - (5 : F) * nuOf K G) / (30 : F) / ((1 : F) - nuOf K G))
+      = 12 * (K + 2 * G) / (5 * (3 * K + 4 * G)) := by
+  have e : (4 : F) - 5 * nuOf K G = 9 * (K + 2 * G) / (2 * (3 * K + G)) := by unfold nuOf; field_simp; ring
+  rw [e, one_sub_nuOf hK hG]; field_simp; ring
+lemma four_sub_five_nuOf {K G : F} (hK : 0 < K) (hG : 0 < G) :
+    (4 : F) - (5 : F) * nuOf K G = 9 * (K + 2 * G) / (2 * (3 * K + G)) := by unfold nuOf; field_simp; ring
+/-- Lamé coefficients as computeIsotropicStiffnessTensorII writes them -/
+lemma lamC_of {K G : F} (hK : 0 < K) (hG : 0 < G) :
+    youngOf K G * nuOf K G / (((1 : F) - (2 : F) * nuOf K G) * ((1 : F) + nuOf K G)) = K - 2 / 3 * G := by
+  rw [one_add_nuOf hK hG, one_sub_two_nuOf hK hG]; unfold youngOf nuOf
+  have hG' := hG.ne'; have hK' := hK.ne'
+  field_simp
+lemma muC_of {K G : F} (hK : 0 < K) (hG : 0 < G) : youngOf K G / ((1 : F) + nuOf K G) = 2 * G := by
+  rw [one_add_nuOf hK hG]; unfold youngOf
+  have hG' := hG.ne'; have hK' := hK.ne'
+  field_simp
+/-- coefficients of the Hill tensor of a sphere as computeSphereHillPolarisationTensor writes them -/
+lemma hillA_of {K G : F} (hK : 0 < K) (hG : 0 < G) :
+    ((1 : F) + nuOf K G) * ((1 : F) - (2 : F) * nuOf K G) / (3 : F) / youngOf K G / ((1 : F) - nuOf K G)
+      = 1 / (3 * K + 4 * G) := by
+  rw [one_add_nuOf hK hG, one_sub_two_nuOf hK hG, one_sub_nuOf hK hG]; unfold youngOf
+  have hG' := hG.ne'; have hK' := hK.ne'
+  field_simp
+lemma hillB_of {K G : F} (hK : 0 < K) (hG : 0 < G) :
+    (2 : F) * ((4 : F) - (5 : F) * nuOf K G) * ((1 : F) + nuOf K G) / (15 : F) / youngOf K G / ((1 : F) - nuOf K G)
+      = 3 * (K + 2 * G) / (5 * G * (3 * K + 4 * G)) := by
+  rw [four_sub_five_nuOf hK hG, one_add_nuOf hK hG, one_sub_nuOf hK hG]; unfold youngOf
+  have hG' := hG.ne'; have hK' := hK.ne'
+  field_simp; ring
+lemma ka3 {K0 G0 K1 : F} (hK0 : 0 < K0) (hG0 : 0 < G0) (hK1 : 0 < K1) :
+    (3 : F) * ((1 : F) / ((3 : F) + 9 * K0 / (3 * K0 + 4 * G0) * (K1 - K0) / K0)) = sphAk K0 G0 K1 := by
+  unfold sphAk Ks3
+  have hK0' := hK0.ne'
+  have a : (3 : F) * K0 + 4 * G0 ≠ 0 := by positivity
+  have b : K1 + 4 / 3 * G0 ≠ 0 := by positivity
+  have d : (3 : F) * K1 + 4 * G0 ≠ 0 := by positivity
+  have e1 : (3 : F) + 9 * K0 / (3 * K0 + 4 * G0) * (K1 - K0) / K0 = 3 * (3 * K1 + 4 * G0) / (3 * K0 + 4 * G0) := by
+    field_simp; ring
+  rw [e1]; field_simp
+lemma mu2 {K0 G0 G1 : F} (hK0 : 0 < K0) (hG0 : 0 < G0) (hG1 : 0 < G1) :
+    (2 : F) * ((1 : F) / ((2 : F) + 12 * (K0 + 2 * G0) / (5 * (3 * K0 + 4 * G0)) * (G1 - G0) / G0)) = sphAg K0 G0 G1 := by
+  unfold sphAg H3
+  have hG0' := hG0.ne'
+  have a : (3 : F) * K0 + 4 * G0 ≠ 0 := by positivity
+  have a2 : K0 + 2 * G0 ≠ 0 := by positivity
+  have d : (6 : F) * (K0 + 2 * G0) * G1 + G0 * (9 * K0 + 8 * G0) ≠ 0 := by positivity
+  have d' : G1 + G0 * (9 * K0 + 8 * G0) / (6 * (K0 + 2 * G0)) ≠ 0 := by positivity
+  have e1 : (2 : F) + 12 * (K0 + 2 * G0) / (5 * (3 * K0 + 4 * G0)) * (G1 - G0) / G0
+      = 2 * (6 * (K0 + 2 * G0) * G1 + G0 * (9 * K0 + 8 * G0)) / (5 * G0 * (3 * K0 + 4 * G0)) := by
+    field_simp; ring
+  have e2 : (G0 + G0 * (9 * K0 + 8 * G0) / (6 * (K0 + 2 * G0))) / (G1 + G0 * (9 * K0 + 8 * G0) / (6 * (K0 + 2 * G0)))
+      = (5 * G0 * (3 * K0 + 4 * G0)) / (6 * (K0 + 2 * G0) * G1 + G0 * (9 * K0 + 8 * G0)) := by
+    rw [div_eq_div_iff d' d]; field_simp; ring
+  rw [e1, e2]; field_simp
 end schemes
 
 end TfelVerif.C25.Lemmas
